@@ -45,8 +45,8 @@ def run(run, args):
     lens = Counter(min(len(h["h"]), 50) // 5 * 5 for h in hists)
     calls = sum(len(h["h"]) for h in hists)
     run.cov.update({"evaluations": calls, "histories": len(hists), "distinct_nontrivial": sum(1 for h in hists if len(set(h["h"])) > 1),
-                    "rule": "a pool of 14 requests sharing elements at different sizes and orders (C6H12O6/5 peaks, C600H1200O600/40, C2/3, H2O/default, "
-                            "C60N10S2/12, O30C/25, K20C300/99%%, C34H53N7O15/8, C5H11NO2Se/3, C10H20N2O4Se2/12, Sn2C4/2, the first request again with a sodium carrier, Ar3/4 and CaCO3/6 whose element numbers collide); every history of length <= %d over the pool on one generator, random "
+                    "rule": "a pool of 16 requests sharing elements at different sizes and orders (C6H12O6/5 peaks, C600H1200O600/40, C2/3, H2O/default, "
+                            "C60N10S2/12, O30C/25, K20C300/99%%, C34H53N7O15/8, C5H11NO2Se/3, C10H20N2O4Se2/12, Sn2C4/2, the first request again with a sodium carrier, Ar3/4 and CaCO3/6 whose element numbers collide, C6H12O6/exactly 1 and H2O/50%% which resolve to a single peak); every history of length <= %d over the pool on one generator, random "
                             "histories of length 5..50, and 16 threads each interleaving generator and stateless calls; after every call the generator's peaks "
                             "are compared with the stateless function's; non-trivial = a history calling at least two different requests" % n,
                     "kinds": dict(kinds), "history_length_histogram": {str(k): v for k, v in sorted(lens.items())},
